@@ -43,6 +43,31 @@ def runChain (lvl : Nat) : List Filter → Nat × Bool
     | .reject => (1, false)
     | .neutral => let r := runChain lvl rest; (r.1 + 1, r.2)
 
+/-! ### how a chain comes to be attached to an appender -/
+
+/-- programmatic path: `AppenderBuilder::filter` pushes each filter onto `filters`
+(`AppenderBuilder::filters` extends by the same pushes) and `build` moves the vector into the
+`Appender` -/
+def builderChain (declared : List Filter) : List Filter :=
+  declared.foldl (fun acc f => acc ++ [f]) []
+
+/-- an entry of an appender's `filters:` list in a configuration document -/
+inductive FilterEntry where
+  | ok (f : Filter)     -- has a `kind` with a registered deserializer that accepts the entry
+  | bad                 -- no `kind`, unknown kind, or refused by its deserializer
+  deriving Repr, DecidableEq
+
+/-- configuration-file path (`config/raw.rs`): `split_appender` hands the entries of `filters:` over
+in document order; `RawConfig::appenders_lossy` walks them in that order, `builder.filter(f)` for
+each one that deserializes, one reported error for each one that does not. Returns the chain and
+the number of errors. -/
+def configStep (acc : List Filter × Nat) : FilterEntry → List Filter × Nat
+  | .ok f => (acc.1 ++ [f], acc.2)
+  | .bad => (acc.1, acc.2 + 1)
+
+def configChain (doc : List FilterEntry) : List Filter × Nat :=
+  doc.foldl configStep ([], 0)
+
 /-- a configured appender: its filter chain and whether its `append` returns `Err` -/
 structure AppenderM where
   chain : List Filter
